@@ -236,6 +236,7 @@ func C02Cases(tier string, seed int64) []Case {
 			func(e Env[*symalg.G, *symalg.F]) { c02KW(e, p) },
 			func(e Env[*k256.Point, *k256.Scalar]) { c02KW(e, p) }))
 	}
+	cases = append(cases, C02ExtraCases(tier, seed)...)
 	return cases
 }
 
